@@ -9,7 +9,8 @@ pub fn mixed(cs: u32) -> Vec<Op> {
     let s = |x: &str| x.to_string();
     let mut a = Vec::new();
     // namespace
-    // "exactly13unit" fills its long-name slot completely (no terminator)
+    // "exactly13unit" fills its long-name slot completely (no terminator); "twelve-12.tx" (rename target) leaves room
+    // for the terminator only (no padding)
     for p in ["a", "long-name-1.txt", "d/a", "x:y", "exactly13unit"] {
         a.push(Op::CreateFile { base: r, path: s(p), keep: None });
     }
@@ -22,7 +23,7 @@ pub fn mixed(cs: u32) -> Vec<Op> {
         a.push(Op::Remove { base: r, path: s(p) });
     }
     a.push(Op::Remove { base: r, path: "m".repeat(100) });
-    for (p, q) in [("a", "b"), ("a", "d/a"), ("d/a", "a"), ("d", "q"), ("d/e", "e"), ("a", "x:y"), ("d", "d/e/z"), ("long-name-1.txt", "long-name-2.txt"), ("e", "d/e")] {
+    for (p, q) in [("a", "b"), ("a", "d/a"), ("d/a", "a"), ("d", "q"), ("d/e", "e"), ("a", "x:y"), ("d", "d/e/z"), ("long-name-1.txt", "twelve-12.tx"), ("e", "d/e")] {
         a.push(Op::Rename { base: r, src: s(p), dst_base: r, dst: s(q) });
     }
     a.push(Op::Rename { base: r, src: s("a"), dst_base: r, dst: "n".repeat(100) });
